@@ -536,11 +536,23 @@ func TestC13Concurrent(t *testing.T) {
 			}(plans[w])
 		}
 		close(start)
+		// pool operations are short; if they have not all returned after two minutes they never will (a goroutine
+		// blocked for good inside the pool): nothing can be established about such a pool
+		watchdog := time.After(120 * time.Second)
 		for w := 0; w < workers; w++ {
-			<-done
+			select {
+			case <-done:
+			case <-watchdog:
+				t.Fatalf("VERIF-DEADLOCK: %d of %d submitting goroutines have not returned from the pool after 120 s (%d submissions, %d blocks planned)", workers-w, workers, len(all), nblocks)
+			}
 		}
-		if err := <-prodErr; err != nil {
-			t.Fatalf("block producer: %v", err)
+		select {
+		case err := <-prodErr:
+			if err != nil {
+				t.Fatalf("block producer: %v", err)
+			}
+		case <-watchdog:
+			t.Fatalf("VERIF-DEADLOCK: the block-producer goroutine has not returned after 120 s")
 		}
 		m.hist = []string{fmt.Sprintf("%d workers, %d submissions, %d blocks with %d transactions", workers, len(all), nblocks, produced)}
 		m.check("at quiescence after concurrent operations")
